@@ -365,6 +365,54 @@ def run(tier, replay=None):
                           {"ploidy": ploidy, "n_base": nb, "temperatures": temps.tolist(), "first_differing_step": s_, "seed": sd,
                            "certainly_flushed": overflow}, "C09/assemble/cache-trajectory")
 
+    # ------------------------------------------------------------------ (ii-a2'') deep samples with the homozygosity screen on: many distinct reads,
+    # some positions fixed.  The sampler then runs on the remaining positions; a read's factor at the fixed positions is the same for
+    # every genotype, so (likelihood of the recorded genotype for ALL of the sample's reads and positions) - (likelihood carried)
+    # must be one constant over all steps and chains
+    for it in range({"warm": 1, "quick": 3, "thorough": 16}[tier]):
+        ploidy = r.choice([2, 4]); nb = r.randint(5, 7)
+        hom = sorted(r.sample(range(nb), r.randint(1, 2)))
+        base_h = [r.randrange(2) for _ in range(nb)]
+        truth = []
+        for _ in range(ploidy):
+            h = [r.randrange(2) for _ in range(nb)]
+            for j in hom:
+                h[j] = base_h[j]
+            truth.append(h)
+        raw = []
+        for _ in range(r.choice([300, 500, 800])):
+            h = r.choice(truth)
+            row = np.full((nb, 2), np.nan)
+            for j in range(nb):
+                if r.random() < 0.15:
+                    continue                                   # gap
+                a = h[j] if r.random() > 0.04 else 1 - h[j]    # a sequencing error
+                e = r.choice([0.001, 0.01])
+                row[j, a] = 1 - e; row[j, 1 - a] = e
+            raw.append(row)
+        raw = np.array(raw)
+        keys = np.nan_to_num(raw.reshape(len(raw), -1), nan=-1.0)
+        _, first, counts_d = np.unique(keys, axis=0, return_index=True, return_counts=True)
+        reads_d, counts_d = raw[first], counts_d.astype(np.int64)
+        mod_ = DenovoMCMC(ploidy=ploidy, n_alleles=[2] * nb, steps=120, chains=2, temperatures=(0.3, 1.0), random_seed=41 + it, inbreeding=0.0)
+        tr = mod_.fit(reads_d, read_counts=counts_d)
+        gt, lt = tr.genotypes, tr.llks
+        fixed_cols = [j for j in range(nb) if len({int(x) for x in gt[:, :, :, j].ravel()}) == 1]
+        chk.count("fit:deep-with-screen"); chk.count("fit:deep-with-screen:distinct-reads>=64" if len(reads_d) >= 64 else "fit:deep-with-screen:distinct-reads<64")
+        chk.count("fit:deep-with-screen:fixed-columns=%d" % min(len(fixed_cols), 3))
+        chk.case(("fit-deep", it, ploidy, nb, len(reads_d)), len(reads_d) >= 64 and 0 < len(fixed_cols) < nb)
+        if np.isnan(lt).all():
+            continue
+        offs = [float(log_likelihood(reads_d, gt[c, s_], read_counts=counts_d)) - float(lt[c, s_])
+                for c in range(gt.shape[0]) for s_ in range(gt.shape[1])]
+        spread = max(offs) - min(offs)
+        scale = max(1.0, max(abs(float(x)) for x in lt.ravel()))
+        if not (spread <= 1e-7 * scale):
+            chk.violation("deep sample, homozygosity screen on: the likelihood carried in the trace does not differ from the likelihood of "
+                          "the recorded genotype for all of the sample's reads by one constant (the factor of the fixed positions)",
+                          {"ploidy": ploidy, "n_base": nb, "distinct_reads": int(len(reads_d)), "observations": int(counts_d.sum()),
+                           "columns_constant_in_the_trace": fixed_cols, "offset_min": min(offs), "offset_max": max(offs)}, "C09/assemble/trace-llk")
+
     # ------------------------------------------------------------------ (ii-a2') every chain of small ladders, the boundary ladder (inverse temperature exactly 0) included
     for it in range({"warm": 1, "quick": 6, "thorough": 40}[tier]):
         ploidy = r.choice([2, 3, 4]); nb = r.randint(3, 5)
